@@ -4,7 +4,7 @@
     structural (a Fixpoint over the characters of the token). *)
 From Coq Require Import List NArith ZArith.
 From Cicada Require Import Base.Chars Base.Tag Model.Expand Model.ExpandRef
-  Proofs.ExpandBasics Proofs.EnvProofs Proofs.ExpandOnceProofs Proofs.EnvGate Proofs.SubstProofs Proofs.ExpandInert Proofs.GateAnchorProofs.
+  Proofs.ExpandBasics Proofs.EnvProofs Proofs.ExpandOnceProofs Proofs.EnvGate Proofs.SubstProofs Proofs.ExpandInert Proofs.GateAnchorProofs Model.Cmds Model.ListExec Model.StatusThread Proofs.StatusThreadProofs.
 From Cicada Require Model.Tokenizer.
 Import ListNotations.
 Local Open Scope N_scope.
@@ -69,6 +69,25 @@ Theorem C10_refs_before_cmdsub : forall W tg ps c,
   (tg = TDq \/ ~ In 39 (render_pieces ps ++ 36 :: 40 :: c ++ [41])) ->
   expand_env_tok W (tg, render_pieces ps ++ 36 :: 40 :: c ++ [41]) = (tg, den_pieces W ps ++ 36 :: 40 :: c ++ [41]).
 Proof. exact expand_env_tok_refs_before_cmdsub. Qed.
+
+(** [$?] is the World's [status]; which status that is INSIDE a command line is decided by the list loop of
+    execute::run_command_line (Model/StatusThread.v: the loop with the assignment [sh.previous_status = status] after
+    every executed pipeline made explicit): every executed segment is expanded under the status of the segment executed
+    JUST BEFORE it (skipped && / || segments do not count), the first one under the status the line started with; and
+    this loop runs the same segments with the same statuses as Model/ListExec.v (C03's model). *)
+Theorem C10_status_reference : forall W, expand_env_once W [36; 63] = z_to_dec (status W)
+                                     /\ expand_env_once W [36; 123; 63; 125] = z_to_dec (status W).
+Proof. intros W. split; cbn; rewrite app_nil_r; reflexivity. Qed.
+Theorem C10_status_is_last_executed : forall (run_proc : Z -> str -> Z) prev0 line,
+  chained prev0 (s_seen (thread_line run_proc prev0 line)) /\
+  s_prev (thread_line run_proc prev0 line)
+  = last (map (fun x => snd x) (s_seen (thread_line run_proc prev0 line))) prev0.
+Proof. exact status_seen_is_last_executed. Qed.
+Theorem C10_status_loop_is_list_exec : forall (run_proc : Z -> str -> Z) line,
+  let s := thread_line run_proc 0%Z line in
+  let e := run_command_line Z (as_world run_proc) 0%Z line in
+  map (fun x => (fst (fst x), snd x)) (s_seen s) = e_ran Z e /\ s_status s = e_status Z e.
+Proof. exact thread_agrees_with_list_exec. Qed.
 
 (** A whole line of words (tag, segment list): quoted ones unchanged, the others substituted, each
     in its place. *)
@@ -146,6 +165,9 @@ Print Assumptions C10_index_buffer.
 Print Assumptions C10_gate_whole_word.
 Print Assumptions C10_gate_accepts_refs_before_cmdsub.
 Print Assumptions C10_refs_before_cmdsub.
+Print Assumptions C10_status_reference.
+Print Assumptions C10_status_is_last_executed.
+Print Assumptions C10_status_loop_is_list_exec.
 Print Assumptions C10_line.
 Print Assumptions C10_single_quoted.
 Print Assumptions C10_single_quoted_in_line.
